@@ -6,7 +6,7 @@ V = os.path.dirname(os.path.dirname(os.path.abspath(__file__)))
 res = {}
 for rf in sys.argv[1:]:
     for rec in json.load(open(rf)):
-        m = re.search(r'/benign/(C\d\d-ben2?[A-Z])/patch\.diff$', rec['patch'])
+        m = re.search(r'/benign/(C\d\d-ben\d?[A-Z])/patch\.diff$', rec['patch'])
         if not m:
             continue
         sid = m.group(1)
